@@ -19,7 +19,8 @@ BOUNDS = {'quick': 'str x of len<=2 over all code points placed in 8 contexts (r
                    'container graphs with sharing and cycles over 3 slots; bytes len<=2; ints; option cells (canonical, line_break, indent) with len<=1',
           'thorough': 'len<=3; folding alphabet len<=6; bytes len<=3'}
 OUTSIDE = 'C dumper/loader legs and cross-back-end reading; strings longer than the bounds; encoding= (C15); tags=/version= (C12); float text (C08 language queries)'
-ASSUMPTIONS = ['the symbolic str is injected as the value of the ScalarNode that SafeDumper.represent_data produced for a placeholder (a real dict cannot hold a symbolic key)',
+ASSUMPTIONS = ['M12 (dt-micro cells only): +, -, *, / on floats and int / int round to the nearest binary64 value, ties to even (self-tested against the interpreter); everywhere else floats are exact rationals',
+               'the symbolic str is injected as the value of the ScalarNode that SafeDumper.represent_data produced for a placeholder (a real dict cannot hold a symbolic key)',
                'the loaded side is compared at node level (yaml.compose) and, where no symbolic key is involved, at object level (yaml.load)',
                'M2 hex formatting, M3 int(hex), M4e str.encode, M8 base64 models', 'Known finding K4 (UTC offsets with seconds)']
 
@@ -328,8 +329,54 @@ def dt_offsets(h: int, neg: bool) -> str:
     return 'ok'
 
 
+def dt_micro(d0: int, d1: int, d2: int, d3: int, d4: int, d5: int, tz: int) -> str:
+    """load half of the datetime round trip with every microsecond value: the text is what
+    represent_datetime writes (isoformat: six fraction digits, here six solver variables), read
+    with binary64 rounding switched on (model M12).  The dump half (int -> digits) is swept by
+    dt_micro_dump: formatting an int makes CrossHair enumerate its values."""
+    us = ((((d0 * 10 + d1) * 10 + d2) * 10 + d3) * 10 + d4) * 10 + d5
+    off = None if tz == 0 else datetime.timedelta(0) if tz == 1 else datetime.timedelta(hours=-5, minutes=-30)
+    text = '2001-12-14 21:59:43.' + chr(48 + d0) + chr(48 + d1) + chr(48 + d2) + chr(48 + d3) + chr(48 + d4) + chr(48 + d5)
+    text += '' if tz == 0 else '+00:00' if tz == 1 else '-05:30'
+    try:
+        loader = yaml.SafeLoader('')
+        tag = loader.resolve(ScalarNode, text, (True, False))
+        back = loader.construct_document(ScalarNode(tag, text))
+    except yaml.YAMLError:
+        return fail(P, 'REJECTED', tz=tz)
+    except Exception as e:
+        not_a_finding(e)
+        return fail(P, 'roundtrip ' + exc_sig(e), tz=tz)
+    reach()
+    if not isinstance(back, datetime.datetime):
+        return fail(P, 'TYPE datetime read back as %s' % type(back).__name__, tz=tz)
+    # field by field (== and utcoffset() of an aware datetime hand the datetime to tzinfo code, which makes the engine enumerate)
+    if back.microsecond != us or (back.year, back.month, back.day, back.hour, back.minute, back.second) != (2001, 12, 14, 21, 59, 43):
+        return fail(P, 'VALUE datetime read back differently', tz=tz)
+    if (back.tzinfo is None) != (tz == 0) or (tz != 0 and back.tzinfo.utcoffset(None) != off):
+        return fail(P, 'VALUE utc offset differs', tz=tz)
+    return 'ok'
+
+
+def dt_micro_dump(us: int, tz: int) -> str:
+    """dump half: represent_datetime writes the isoformat text dt_micro starts from"""
+    off = None if tz == 0 else datetime.timedelta(0) if tz == 1 else datetime.timedelta(hours=-5, minutes=-30)
+    x = datetime.datetime(2001, 12, 14, 21, 59, 43, us, tzinfo=None if off is None else datetime.timezone(off))
+    try:
+        node = yaml.SafeDumper(None).represent_data(x)
+    except Exception as e:
+        not_a_finding(e)
+        return fail(P, 'represent ' + exc_sig(e), tz=tz)
+    reach()
+    want = '2001-12-14 21:59:43' + ('.%06d' % us if us else '') + ('' if tz == 0 else '+00:00' if tz == 1 else '-05:30')
+    if node.tag != 'tag:yaml.org,2002:timestamp' or node.value != want:
+        return fail(P, 'VALUE datetime written as %r' % (node.value,), tz=tz)
+    return 'ok'
+
+
 def selftests():
-    return [pymodels.selftest_b64(), pymodels.selftest_codecs()]
+    from symex import models
+    return [pymodels.selftest_b64(), pymodels.selftest_codecs(), models.selftest_rnd64()]
 
 
 FIRST = [('ctl', 0, 0x20), ('sp-/', 0x20, 0x30), ('0-@', 0x30, 0x41), ('A-`', 0x41, 0x61), ('a-del', 0x61, 0x80), ('c1', 0x80, 0xa0),
@@ -426,6 +473,12 @@ def jobs(tier):
     BL = 1 if q else 2
     js.append(Job('binary', binary, [lambda b, ctx, flow_i: len(b) <= BL and 0 <= ctx <= 2 and flow_i == 0], budget=200 if q else 1500,
                   bounds='bytes of len<=%d through !!binary (base64 models), 3 contexts' % BL))
+    for t in range(3):
+        js.append(Job('dt-micro/tz%d' % t, dt_micro, [lambda d0, d1, d2, d3, d4, d5, tz, _t=t: 0 <= d0 <= 9 and 0 <= d1 <= 9 and 0 <= d2 <= 9 and 0 <= d3 <= 9 and
+                                                       0 <= d4 <= 9 and 0 <= d5 <= 9 and tz == _t], budget=200 if q else 900, ieee=True, per_path_timeout=20,
+                      bounds='datetime with every microsecond value (six digit variables), %s: isoformat text -> resolve -> construct, float arithmetic rounded to binary64 (M12)' % ['naive', 'UTC', '-05:30'][t]))
+    js.append(Job('dt-micro-dump', dt_micro_dump, [lambda us, tz: 0 <= us <= 999999 and 0 <= tz <= 2], budget=40 if q else 600, exhaust=False,
+                  bounds='represent_datetime on microsecond values (formatting an int enumerates: bug-hunting only)'))
     js.append(Job('integer', integer, [lambda n, ctx, style_i: 0 <= n < 10 ** 6 and 0 <= ctx <= 2 and 0 <= style_i <= 4], budget=60 if q else 1500,
                   exhaust=False, bounds='ints 0 <= n < 10^6, 3 contexts, 5 styles'))
     js.append(Job('consts', consts, [lambda k, style_i, flow_i, canonical: 0 <= k < len(CONSTS) and 0 <= style_i <= 4 and 0 <= flow_i <= 2],
